@@ -17,7 +17,7 @@ import json
 NS = ["urn:a", "urn:b", "http://example.com/c"]
 PRIMS = ["str", "int", "bool", "float", "Decimal", "QName", "hex", "b64", "XmlDate", "XmlTime", "XmlDateTime",
          "XmlDuration", "XmlPeriod", "enum"]
-PY_TYPE = {"str": "str", "int": "int", "bool": "bool", "float": "float", "Decimal": "Decimal", "QName": "QName",
+PY_TYPE = {"object": "object", "str": "str", "int": "int", "bool": "bool", "float": "float", "Decimal": "Decimal", "QName": "QName",
            "hex": "bytes", "b64": "bytes", "XmlDate": "XmlDate", "XmlTime": "XmlTime", "XmlDateTime": "XmlDateTime",
            "XmlDuration": "XmlDuration", "XmlPeriod": "XmlPeriod"}
 TEXT_ALPHA = "abcXYZ 019_-.:/&<>\"'éß中😀\n\t"
@@ -139,10 +139,13 @@ def gen_field(r, slices, prims, enums, later, j, used_text, c, simple=False):
     else:
         kinds = ["Element"] * 5 + ["Attribute"] * 3
         if "F2" in slices:
-            kinds += ["Wildcard", "Attributes"]
+            kinds += ["Wildcard", "Attributes", "AnyType"]
         if "F3" in slices:
             kinds += ["Elements"]
     kind = r.choice(kinds)
+    if kind == "AnyType":
+        # xs:anyType element: Optional[object] with type Element, holding simple text
+        return {"name": f"f{j}", "kind": "Element", "type": ("prim", "object"), "optional": True, "list": False}
     f = {"name": f"f{j}", "kind": kind}
     if kind in ("Element", "Attribute", "Text"):
         tp = gen_type(r, prims, enums, later if kind == "Element" else [])
@@ -344,6 +347,8 @@ def gen_text(r, tokens=False, attr=False):
 
 def gen_prim(r, m, tp, tokens=False):
     k = tp[1]
+    if k == "object":
+        return {"__p__": "str", "v": r.choice(["plain", "some text", "x1", "a b c"])}
     if tp[0] == "enum":
         e = next(x for x in m["enums"] if x["name"] == k)
         return {"__p__": "enum", "enum": k, "member": r.choice(e["members"])[0]}
